@@ -26,6 +26,9 @@ PROPS = {
     "C11": dict(engine="objsim", profiles=["misuse"], quick_runs=6000, slice=60, thorough_s=600, fit="native"),
     "C20": dict(engine="objsim", profiles=["restart"], quick_runs=6000, slice=60, thorough_s=600, fit="native"),
     "C10": dict(engine="objsim", profiles=["assign", "assign", "two_handles", "refs"], quick_runs=6000, slice=60, thorough_s=600, fit="native"),
+    "C02": dict(engine="capisim", profiles=["c_readers", "c_readers", "c_readers_refs", "c_writers"], quick_runs=1600, slice=20, thorough_s=600, fit="weak", run_timeout=120),
+    "C17": dict(engine="capisim", profiles=["c_calls"], quick_runs=1600, slice=20, thorough_s=600, fit="seam", run_timeout=120),
+    "C07": dict(engine="capisim", profiles=["c_writers", "c_writers", "c_writers", "c_readers_refs"], quick_runs=1600, slice=20, thorough_s=900, fit="weak", run_timeout=120),
 }
 
 _ENGINES = {}
@@ -55,6 +58,8 @@ def get_engine(name):
             _ENGINES[name] = DevSim()
         else:
             raise KeyError(name)
+        if getattr(_ENGINES[name], "needs_scratch", False):
+            core.enter_scratch()
     return _ENGINES[name]
 
 
